@@ -25,6 +25,27 @@ CLAIMED = {
  'C14': ('model_checking', '3 (C14)',
          'Receive sweep with auto_pong symbolic on/off and symbolic write faults: k-th Pong payload term == k-th Ping payload term, written before the Ping event '
          'is handed to the application, none with auto_pong off, failed Pong writes leave the event stream undisturbed.'),
+ 'C02': ('model_checking', '3 (C02)',
+         'Metamorphic inside one path: the same symbolic server stream (handshake reply ++ symbolic frame bytes / fragmentation templates / a 16 KiB burst) is run on two '
+         'fresh WebSocket objects, once in one read and once cut at solver-chosen positions (all cut sets, byte-at-a-time, cuts inside the HTTP reply, reply joined with '
+         'the first frames); events, payload terms, written bytes and write/event interleaving are proved equal.'),
+ 'C03': ('model_checking', '3 (C03)',
+         'One API call on a directly constructed connected WebSocket with symbolic payload bytes / code points (all planes) / close code+reason and a symbolic masking key; '
+         'the bytes passed to sendall are decoded by an independent RFC 6455 5.2 decoder: one frame, FIN, RSV clear, masked, minimal length form, control <= 125, unmask == caller '
+         'payload; rejected calls raise TypeError/ValueError and write nothing. XOR-table lemma discharged per row from the real _XOR_TABLE.'),
+ 'C07': ('model_checking', '3 (C07)',
+         'Handshake variant x raw symbolic frame bytes x transport end x symbolic faults x application reactions at solver-chosen events; a monitor automaton over event names '
+         '(independent of lomond) plus a bounded-step termination obligation (livelock => violation, not a hang).'),
+ 'C08': ('model_checking', '3 (C08)',
+         'Server frame sequences from a small grammar with symbolic codes/reasons/payloads x application close()/send_* at solver-chosen events (incl. before Ready, during Closing) '
+         'x a symbolic write fault; close-handshake monitor over the ordered wire/event/call log: <=1 Close, no data after it, right code/reason, sends refused after close, '
+         'delivery continues, Closed/Closing + graceful Disconnected + socket closed.'),
+ 'C09': ('model_checking', '3 (C09)',
+         'Symbolic fault (socket error / arbitrary exception) at every socket call occurrence, EOF/error after every byte offset (offset is a solver variable), all addresses refused, '
+         'pairs of faults in thorough: no exception escapes, terminal event right, graceful=False without a closing handshake, socket released, sends raise only WebSocketError.'),
+ 'C13': ('model_checking', '3 (C13)',
+         'Four real consumer shapes (break / raise / generator.close() / with-block) abandoning at a solver-chosen event of grammar-generated scenarios (poll=0 so top-of-loop Polls occur), '
+         'optionally after close(): socket.close() and selector.close() must have been called.'),
 }
 
 REPLAY = './vcheck {prop} --replay {{path}}'
